@@ -133,7 +133,7 @@ func runBurst(c Case) (*failure, error) {
 		ref     refUDP
 		payload []byte
 	}
-	byDest := map[string][][]byte{}
+	var forwarded []sentPkt
 	var wants []want
 	for _, d := range c.Burst {
 		ref := refParseUDP(d)
@@ -172,46 +172,40 @@ func runBurst(c Case) (*failure, error) {
 	for range wants {
 		select {
 		case s := <-g.sent:
-			k := fmt.Sprintf("%s|%d", s.host, s.port)
-			byDest[k] = append(byDest[k], s.payload)
+			forwarded = append(forwarded, s)
 		case <-time.After(burstWait):
 			return nil, errBurstTiming
 		}
 	}
 	// every datagram must be found, intact, among what its destination received
 	for i, w := range wants {
-		found := false
-		var candidates [][]byte
-		for k, pls := range byDest {
-			var host string
-			var port int
-			if n, _ := fmt.Sscanf(k[lastBar(k)+1:], "%d", &port); n != 1 {
+		exact, sameDst := -1, -1
+		for j, s := range forwarded {
+			if s.port != w.ref.Port || !hostMatches(w.ref.Atyp, w.ref.Addr, s.host) {
 				continue
 			}
-			host = k[:lastBar(k)]
-			if port != w.ref.Port || !hostMatches(w.ref.Atyp, w.ref.Addr, host) {
-				continue
+			sameDst = j
+			if bytes.Equal(s.payload, w.payload) {
+				exact = j
+				break
 			}
-			for j, pl := range pls {
-				if bytes.Equal(pl, w.payload) {
-					byDest[k] = append(append([][]byte(nil), pls[:j]...), pls[j+1:]...)
-					found = true
-					break
-				}
-			}
-			candidates = pls
-			break
 		}
-		if found {
+		if exact >= 0 {
+			forwarded = append(forwarded[:exact:exact], forwarded[exact+1:]...)
 			continue
 		}
-		if candidates == nil {
-			return &failure{p + "/datagram-forwarded-to-wrong-destination/" + mode, fmt.Sprintf("datagram %d of %d for %q:%d was not forwarded to that destination; forwarded: %v", i, len(wants), destString(w.ref.Atyp, w.ref.Addr), w.ref.Port, keysOf(byDest))}, nil
+		if sameDst < 0 {
+			var dsts []string
+			for _, s := range forwarded {
+				dsts = append(dsts, fmt.Sprintf("%s:%d", s.host, s.port))
+			}
+			sort.Strings(dsts)
+			return &failure{p + "/datagram-forwarded-to-wrong-destination/" + mode, fmt.Sprintf("datagram %d of %d for %q:%d was not forwarded to that destination; still unmatched: %v", i, len(wants), destString(w.ref.Atyp, w.ref.Addr), w.ref.Port, dsts)}, nil
 		}
-		got := candidates[0]
+		got := forwarded[sameDst].payload
 		detail := fmt.Sprintf("datagram %d of %d for %q:%d (payload %d octets) was forwarded with %d octets, first difference at %d", i, len(wants), destString(w.ref.Atyp, w.ref.Addr), w.ref.Port, len(w.payload), len(got), firstDiffAt(got, w.payload))
 		for j, d := range c.Burst {
-			if j != i && len(got) > 0 && bytes.Contains(d, got[:minInt(len(got), 8)]) {
+			if j != i && len(got) >= 4 && bytes.Contains(d, got[:minInt(len(got), 8)]) {
 				detail += fmt.Sprintf("; it carries octets of datagram %d, which arrived while this one was still pending", j)
 				break
 			}
@@ -219,24 +213,6 @@ func runBurst(c Case) (*failure, error) {
 		return &failure{p + "/payload-changed-while-earlier-datagram-pending/" + mode, detail}, nil
 	}
 	return nil, nil
-}
-
-func lastBar(s string) int {
-	for i := len(s) - 1; i >= 0; i-- {
-		if s[i] == '|' {
-			return i
-		}
-	}
-	return -1
-}
-
-func keysOf(m map[string][][]byte) []string {
-	var ks []string
-	for k := range m {
-		ks = append(ks, k)
-	}
-	sort.Strings(ks)
-	return ks
 }
 
 func firstDiffAt(a, b []byte) int {
@@ -278,8 +254,10 @@ func checkBurst(t vkit.TB, c Case) bool {
 }
 
 func TestUDPRelayBurst(t *testing.T) {
-	if _, err := newRelayRig(); err != nil {
+	if g, err := newRelayRig(); err != nil {
 		t.Fatalf("INCONCLUSIVE: cannot start a UDP relay on loopback: %v", err)
+	} else {
+		g.close()
 	}
 	vkit.Check(t, 480, 12000, func(t *rapid.T) {
 		mode := rapid.SampledFrom([]string{"dial", "send"}).Draw(t, "mode")
